@@ -76,6 +76,21 @@ the generator asks for it, so the kernels of gen_kernels.py are translated exact
   * expressions `ceil(e)` / `floor(e)` (names bound by `from math import …`, checked by the generator) and `int(e)`
                 on an `int` (identity) or a not-NaN float (`Rat.ceil` / `Rat.floor` / truncation towards zero; the
                 result is an `int`, as in Python 3); refused on a float that may be NaN (it would raise).
+
+BIT-OPERATION EXTENSION  (translator/gen_kernels_census.py, gen_kernels_mc.py; off unless the generator passes
+`bitops=True` / `pymod=True`)
+
+  * `nat`       a parameter the generator declares to be a non-negative Python int (Lean `Nat`; both unbounded).
+                `& | ^ >> <<`, `+`, `*` of nats and of non-negative int literals (decimal or hex — the `ast` holds
+                the value) are nats.  `a - b` is accepted only when `b <= a` follows from the SHAPE of the operands
+                (`b` is `a`, or `x & y` / `x >> k` with `x <= a`, or `a` is a sum / `|` containing such a term): Python's
+                difference is then never negative and is Lean's truncated subtraction; any other difference is
+                refused.  The evaluator tests `b <= a` on every evaluation (`TranslatorBug`).  Nothing else is
+                defined on a `nat` (no comparison, no mixing with int / float, no `abs/min/max`).
+                The width of a machine integer is NOT modelled: that no intermediate value of `popcount32b`
+                reaches 2^32 is a theorem about the generated definition (Properties/C02Census.lean).
+  * `%`         `e % <positive literal>` on an int or a not-NaN float: `e - floor(e / m) * m` (the sign of the
+                divisor, as in Python and numpy; exact).  Any other `%` is refused.
 """
 from __future__ import annotations
 
@@ -87,8 +102,11 @@ from typing import Dict, List, Optional, Sequence, Tuple
 from .common import Unsupported, lean_str
 
 INT, RAT, VAL, BOOL, STR = "int", "rat", "val", "bool", "str"
+NAT = "nat"  # bit-operation extension: a Python int known to be non-negative (Lean `Nat`); not in NUMERIC on purpose
 NUMERIC = (INT, RAT, VAL)
-LEAN_TYPE = {INT: "Int", RAT: "Rat", VAL: "Val", BOOL: "Bool", STR: "String"}
+LEAN_TYPE = {INT: "Int", RAT: "Rat", VAL: "Val", BOOL: "Bool", STR: "String", NAT: "Nat"}
+NAT_BITOPS = {ast.BitAnd: "band", ast.BitOr: "bor", ast.BitXor: "bxor", ast.RShift: "shr", ast.LShift: "shl"}
+NAT_SYM = {"band": "&&&", "bor": "|||", "bxor": "^^^", "shr": ">>>", "shl": "<<<", "nsub": "-"}
 LEAN_KEYWORDS = {
     "at", "by", "do", "else", "end", "from", "fun", "have", "if", "in", "let", "match", "open", "show", "then",
     "with", "where", "def", "theorem", "example", "namespace", "section", "instance", "structure", "class",
@@ -255,7 +273,11 @@ class Translator:
 
     def __init__(self, fn: ast.FunctionDef, lean_name: str, params: Sequence[Param], consts=None,
                  numpy_names=("np",), source_text: Optional[str] = None, exceptions=(), constructors=None,
-                 math_names=None):
+                 math_names=None, bitops=False, pymod=False):
+        # bit-operation extension (`bitops`): `& | ^ >> << + * -` on non-negative ints (`nat`); `pymod`: `e % <positive
+        # literal>` on an int / a float that is not NaN — both off unless the generator asks
+        self.bitops = bool(bitops)
+        self.pymod = bool(pymod)
         # glue extension: `exceptions` = names that may be raised (`raise ValueError("…")`), `constructors` = {local name:
         # arity} of calls accepted as the returned value (`Window(a, b, c, d)`, returned as the tuple of its arguments),
         # `math_names` = {local name: "ceil" | "floor"} bound by `from math import …` (all checked by the generator)
@@ -300,7 +322,7 @@ class Translator:
                     env[f"{p.name}[{i}]"] = Binding(ln, ty)
                     lean_params.append((ln, ty))
                     self.reserved.add(f"{p.name}{i}")
-            elif p.kind in (VAL, RAT, INT, BOOL, STR):
+            elif p.kind in (VAL, RAT, INT, BOOL, STR) or (p.kind == NAT and self.bitops):
                 env[p.name] = Binding(lean_ident(p.name), p.kind)
                 lean_params.append((lean_ident(p.name), p.kind))
             elif p.kind == "record":
@@ -328,7 +350,8 @@ class Translator:
                 raise Unsupported(f"{fn.name}: the local `{n}` shadows a name the translator gives a meaning to")
             if n in self.reserved or n.startswith("pyDiv"):
                 raise Unsupported(f"{fn.name}: the local `{n}` collides with a generated name")
-            if any(p.name == n for p in self.params):
+            if any(p.name == n and not (self.bitops and p.kind == NAT) for p in self.params):
+                # (a `nat` parameter may be rebound — `row -= …`: a scalar passed by value, shadowed in Lean)
                 raise Unsupported(f"{fn.name}: the parameter `{n}` is reassigned")
         for node in ast.walk(fn):
             if isinstance(node, (ast.Global, ast.Nonlocal, ast.Lambda, ast.FunctionDef, ast.ClassDef)) and node is not fn:
@@ -563,7 +586,7 @@ class Translator:
             vals, shape = self.return_values(st.value, env, facts)
             self.ret_shapes.append(shape)
             for v in vals:
-                if v.ty not in NUMERIC + (BOOL,):
+                if v.ty not in NUMERIC + (BOOL,) + ((NAT,) if self.bitops else ()):
                     raise Unsupported(f"{self.fn.name}: a {v.ty} is returned")
             r = Ret(vals)
             self.rets.append(r)
@@ -875,6 +898,10 @@ class Translator:
                 return Ex("pow", base.ty, (base,), n.value)
             a = self.expr(node.left, env, facts)
             b = self.expr(node.right, env, facts)
+            if self.bitops and (type(node.op) in NAT_BITOPS or NAT in (a.ty, b.ty)):
+                return self.nat_binop(node, a, b)
+            if self.pymod and isinstance(node.op, ast.Mod):
+                return self.py_mod(node, a, b)
             ops = {ast.Add: "add", ast.Sub: "sub", ast.Mult: "mul"}
             if type(node.op) in ops:
                 a, b, ty = self.num_pair(a, b, src(node))
@@ -907,6 +934,61 @@ class Translator:
         if isinstance(node, ast.Call):
             return self.call(node, env, facts)
         raise Unsupported(f"{fn}: expression `{src(node)}` ({type(node).__name__}) is outside the subset")
+
+    # ---- bit-operation extension: non-negative ints
+    def to_nat(self, e: Ex, node) -> Ex:
+        if e.ty == NAT:
+            return e
+        if e.op == "lit" and e.ty == INT and e.aux >= 0:
+            return Ex("lit", NAT, (), e.aux)
+        raise Unsupported(f"{self.fn.name}: `{src(node)}`: an operand is a {e.ty}, not a non-negative int")
+
+    @staticmethod
+    def nat_le(b: Ex, a: Ex) -> bool:
+        """`b <= a` for every value of the variables, by the shape of the two expressions only"""
+        if b == a:
+            return True
+        if b.op == "lit" and a.op == "lit":
+            return b.aux <= a.aux
+        if b.op == "lit" and b.aux == 0:
+            return True
+        if b.op == "band" and (Translator.nat_le(b.args[0], a) or Translator.nat_le(b.args[1], a)):
+            return True
+        if b.op == "shr" and Translator.nat_le(b.args[0], a):
+            return True
+        if a.op == "add" and (Translator.nat_le(b, a.args[0]) or Translator.nat_le(b, a.args[1])):
+            return True
+        if a.op == "bor" and (Translator.nat_le(b, a.args[0]) or Translator.nat_le(b, a.args[1])):
+            return True
+        return False
+
+    def nat_binop(self, node, a: Ex, b: Ex) -> Ex:
+        """`& | ^ >> << + * -` on non-negative ints.  Python ints are unbounded and so is `Nat`; `a - b` is accepted only
+        when `b <= a` follows from the shape of the operands (`x - ((x >> 1) & m)`), so that Python's difference is never
+        negative and equals Lean's truncated subtraction (the evaluator tests it on every evaluation)."""
+        a, b = self.to_nat(a, node), self.to_nat(b, node)
+        op = type(node.op)
+        if op in NAT_BITOPS:
+            return Ex(NAT_BITOPS[op], NAT, (a, b))
+        if op is ast.Add:
+            return Ex("add", NAT, (a, b))
+        if op is ast.Mult:
+            return Ex("mul", NAT, (a, b))
+        if op is ast.Sub:
+            if not self.nat_le(b, a):
+                raise Unsupported(f"{self.fn.name}: `{src(node)}`: the difference of two non-negative ints is not seen to "
+                                  "be non-negative")
+            self.notes.append(f"`{src(node)}`: the subtrahend is at most the minuend by the shape of the operands")
+            return Ex("nsub", NAT, (a, b))
+        raise Unsupported(f"{self.fn.name}: operator in `{src(node)}` is outside the subset (non-negative ints)")
+
+    def py_mod(self, node, a: Ex, b: Ex) -> Ex:
+        """`a % b` for a positive literal `b`: Python's result has the sign of the divisor, `a - floor(a / b) * b`
+        (int and float alike; no rounding in this model)"""
+        if a.ty not in (INT, RAT) or not (b.op == "lit" and b.ty in (INT, RAT) and b.aux > 0):
+            raise Unsupported(f"{self.fn.name}: `{src(node)}`: `%` only of an int / a not-NaN float by a positive literal")
+        ty = RAT if RAT in (a.ty, b.ty) else INT
+        return Ex("mod", ty, (cast(a, ty), cast(b, ty)))
 
     def division(self, a: Ex, b: Ex, node, env, facts) -> Ex:
         if a.ty not in NUMERIC or b.ty not in NUMERIC:
@@ -1093,6 +1175,8 @@ def translate_expression(node: ast.expr, lean_name: str, atoms: Sequence[Tuple[s
 # Lean rendering
 # ------------------------------------------------------------------------------------------------
 def lean_lit(q: Fraction, ty: str) -> str:
+    if ty == NAT:
+        return f"({int(q)} : Nat)"
     if ty == INT:
         return f"({int(q)} : Int)"
     if q.denominator == 1:
@@ -1163,6 +1247,12 @@ def lean_expr(e: Ex) -> str:
         return f"(PyExpr.r{e.op} {a[0]})"
     if e.op == "ext":  # an operation a generator supplies itself: aux = (Lean function, exact Python function)
         return "(" + " ".join([e.aux[0]] + a) + ")"
+    if e.op in NAT_SYM:
+        return f"({a[0]} {NAT_SYM[e.op]} {a[1]})"
+    if e.op == "mod":
+        if e.ty == INT:
+            return f"({a[0]} % {a[1]})"  # Int.emod: for a positive divisor, Python's `%`
+        return f"({a[0]} - (((PyExpr.rfloor ({a[0]} / {a[1]})) : Int) : Rat) * {a[1]})"
     raise TranslatorBug(f"cannot render {e.op}")
 
 
@@ -1259,7 +1349,7 @@ def ev(e: Ex, env):
     a = [ev(x, env) for x in e.args] if e.op not in ("and", "or") else None
     t = e.args[0].ty if e.args else e.ty
     if e.op == "lit":
-        return int(e.aux) if e.ty == INT else Fraction(e.aux)
+        return int(e.aux) if e.ty in (INT, NAT) else Fraction(e.aux)
     if e.op == "var":
         return env[e.aux]
     if e.op == "nan":
@@ -1310,6 +1400,20 @@ def ev(e: Ex, env):
         return a[0] is NAN
     if e.op == "streq":
         return a[0] == e.aux
+    if e.op in NAT_SYM:
+        x, y = a
+        if x < 0 or y < 0:
+            raise TranslatorBug("a negative value among the non-negative ints")
+        if e.op == "nsub":
+            if y > x:
+                raise TranslatorBug("a difference declared non-negative by the shape of its operands is negative")
+            return x - y
+        return {"band": x & y, "bor": x | y, "bxor": x ^ y, "shr": x >> y, "shl": x << y}[e.op]
+    if e.op == "mod":
+        x, y = a
+        q = Fraction(x) / Fraction(y)
+        r = x - (q.numerator // q.denominator) * y
+        return int(r) if e.ty == INT else Fraction(r)
     if e.op in ("ceil", "floor", "trunc"):
         q = Fraction(a[0])
         fl = q.numerator // q.denominator  # floor (Python's // on ints)
@@ -1385,6 +1489,10 @@ def conv(v, ty):
             raise TypeError("NaN given for a parameter declared not-NaN")
         return Fraction(v)
     if ty == INT:
+        return int(v)
+    if ty == NAT:
+        if int(v) < 0:
+            raise TypeError("a negative value given for a parameter declared non-negative")
         return int(v)
     if ty == BOOL:
         return bool(v)
